@@ -1,7 +1,7 @@
 (* C16 - failures are loud. Statements only. *)
 From Coq Require Import String.
 From Verif Require Import Base.Str Base.Outcome Model.RuleId Model.Update Model.Renumber Model.Cli Model.Assembler Model.CmdLine.
-From Verif Require Import Proofs.CliProofs Proofs.AssemblerProofs.
+From Verif Require Import Proofs.CliProofs Proofs.AssemblerProofs Proofs.CliOrderProofs Proofs.CliLoudProofs.
 From Verif Require Tie.Pin_lits_cmd_regex_update_performUpdate Tie.Pin_lits_cmd_regex_update_processRule Tie.Pin_lits_cmd_regex_update_updateRegex Tie.Pin_lits_cmd_regex_compare_processRegexForCompare Tie.Pin_lits_cmd_regex_compare_performCompare Tie.Pin_lits_cmd_regex_format_processFile Tie.Pin_lits_regex_operators_assembler_Operator_startPreprocessor Tie.Pin_lits_regex_operators_assembler_Operator_endPreprocessor Tie.Pin_lits_regex_parser_parser_buildPairMap Tie.Pin_lits_regex_parser_parser_flagIsAllowed.
 Open Scope N_scope.
 
@@ -33,3 +33,33 @@ Theorem C16_update_all_partial_write_refuted :
 Proof. exact update_all_partial_write. Qed.
 Print Assumptions C16_update_all_partial_write_refuted.
 
+
+(* ---------- --all walks: a failure in ANY file - first, middle or last - fails the command ---------- *)
+(* compare --all: a file whose regex cannot be generated, whose rules file is missing or ambiguous,
+   whose rule or chain offset is not found ... makes the exit status non-zero in every output mode *)
+Theorem C16_compare_all_fails_when_any_file_fails :
+  forall gen bits files t f, In f files -> failed (verdict_of gen bits t f) ->
+  forall github, compare_all_status github (compare_all gen bits files t []) = Fail.
+Proof. exact compare_all_fails_when_any_file_fails. Qed.
+Print Assumptions C16_compare_all_fails_when_any_file_fails.
+
+Theorem C16_compare_all_github_fails_when_any_rule_changed :
+  forall gen bits files t vs, compare_all gen bits files t [] = Ok vs -> In false vs -> compare_all_status true (Ok vs) = Fail.
+Proof. exact compare_all_github_fails_when_any_rule_changed. Qed.
+Print Assumptions C16_compare_all_github_fails_when_any_rule_changed.
+
+(* format --all: one selected file that cannot be formatted, anywhere in the walk *)
+Theorem C16_format_all_fails_when_any_file_fails :
+  forall fmt files t f c, NoDup files -> In f files -> format_selected f = true -> t_get t f = Some c -> failed (fmt c) ->
+  exists t', format_all fmt files t = (t', Fail).
+Proof. exact format_all_fails_when_any_file_fails. Qed.
+Print Assumptions C16_format_all_fails_when_any_file_fails.
+
+(* update --all: one assembly file whose regex cannot be generated, anywhere in the walk (generate
+   reads no rules file, so it fails on the tree reached exactly when it fails on the initial tree) *)
+Theorem C16_update_all_fails_when_any_generate_fails :
+  forall gen bits, gen_ignores_rules_files gen ->
+  forall files t f id ds, In f files -> addressed f = Some (id, ds) -> failed (gen t f) ->
+  exists t', update_all gen bits files t = (t', Fail).
+Proof. exact update_all_fails_when_any_generate_fails. Qed.
+Print Assumptions C16_update_all_fails_when_any_generate_fails.
